@@ -74,6 +74,15 @@ class SourceModule(Object):
             self._analysing = False
 
 
+    @property
+    def explicit_exports(self):
+        # type: () -> set[str]
+        """Names listed in the module's literal __all__"""
+        if self._analysing:
+            return set()
+        return self.scope.explicit_exports
+
+
 class ImportedModule(Object):
     def __init__(self, module):
         # type: (object) -> None
@@ -84,3 +93,12 @@ class ImportedModule(Object):
     def _attrs(self):
         # type: () -> Attributes
         return {k: RuntimeName(k, v) for k, v in iteritems(vars(self.module))}
+
+    @cached_property
+    def explicit_exports(self):
+        # type: () -> set[str]
+        names = getattr(self.module, '__all__', ())
+        try:
+            return set(n for n in names if isinstance(n, str))
+        except TypeError:
+            return set()
